@@ -84,6 +84,14 @@ ARG_POOL = (
     ArgDef("b", N("Boolean"), True, False, "false"),
     ArgDef("li", L(NN(N("Inp")))),
     ArgDef("ll", L(L(NN(N("Int"))))),
+    # legal GraphQL argument names that are also parameter names somewhere
+    # between the entry point and the resolver
+    ArgDef("fn", N("Int")),
+    ArgDef("self", N("String")),
+    ArgDef("func", N("Boolean"), True, True, "true"),
+    ArgDef("cls", N("Color")),
+    ArgDef("value", L(NN(N("Int")))),
+    ArgDef("node", N("Inp")),
 )
 
 BEHAVIOURS = ("sync", "default", "async", "awaitable", "nested", "gen",
@@ -355,8 +363,14 @@ def gen_schema(st, want_mutation=False, small=False,
                 ]
             spec.fields[name] = FieldDef(name, draw_type(base), draw_args())
             sfields.append(name)
-        spec.objects["Subscription"] = {"fields": sfields, "interfaces": []}
-        spec.subscription = "Subscription"
+        if st.chance(1, 4, "shared_root"):
+            # legal: one object type serving as query AND subscription root
+            spec.objects["Query"]["fields"].extend(sfields)
+            spec.subscription = "Query"
+        else:
+            spec.objects["Subscription"] = {"fields": sfields,
+                                            "interfaces": []}
+            spec.subscription = "Subscription"
 
     # -- per-type argument defaults ------------------------------------------
     alt = {"s": ("other", '"other"'), "b": (True, "true")}
